@@ -108,3 +108,14 @@ def reflect_rs_bool_methods(prog, names, extra=1):
             body = z3.If(M.is_(cn, p), arm, body)
         J.define([p] + xs, body, dec=0)
     return fns
+
+
+def rs_judgement_contracts(fns):
+    """Callers of the four judgements see the reflected logical function (a `function` in Dafny terms)."""
+    class _C:
+        def __init__(self, f):
+            self.f = f
+
+        def apply_rs(self, interp, ctx, args):
+            return SV(self.f(interp.deref(args[0]).t, *[interp.zint(a) for a in args[1:]]), 'bool')
+    return {f'Pattern::{n}': _C(f) for n, f in fns.items()}
